@@ -157,7 +157,12 @@ func (r *replayer) writeFile(rf *ReplayFile, dir string) (string, error) {
 		return "", err
 	}
 	r.n++
-	safe := strings.NewReplacer("/", "_", ":", "_", " ", "_", "|", "_").Replace(rf.Expect)
+	safe := strings.Map(func(r rune) rune {
+		if r >= 'a' && r <= 'z' || r >= 'A' && r <= 'Z' || r >= '0' && r <= '9' || r == '.' || r == '-' {
+			return r
+		}
+		return '_'
+	}, rf.Expect)
 	name := fmt.Sprintf("%s-%s-%d.json", rf.Harness, safe, r.n)
 	path := filepath.Join(dir, name)
 	b, _ := json.MarshalIndent(rf, "", " ")
